@@ -1,25 +1,40 @@
 (* wire decoding / encoding for the C02 correspondence run *)
 From Coq Require Import String.
 From Coq Require Import List Bool ZArith.
-From BiomV Require Import Base.Tree Base.TreeStr Model.Table Model.Json.
+From BiomV Require Import Base.Tree Base.TreeStr Base.ListUtil Model.Table Model.Json Model.JsonText.
 Import ListNotations.
 
 Definition ePairSS (p : str * str) : Tree := L [eStr (fst p); eStr (snd p)].
 
-(* input: [jtable, table id, [strings to dump], [texts to scan as a literal]]
+(* oracle tables sent by the harness: repr text of every value code, dumps text of every metadata entry *)
+Definition fmt_of (tbl : list (Z * str)) (v : Z) : str :=
+  match find (fun p => Z.eqb (fst p) v) tbl with Some p => snd p | None => [] end.
+Definition scan_of (tbl : list (Z * str)) (s : str) : option Z :=
+  match find (fun p => str_eqb (snd p) s) tbl with Some p => Some (fst p) | None => None end.
+Definition md_of (tbl : list (json * str)) (j : json) : str :=
+  match find (fun p => json_eqb (fst p) j) tbl with Some p => snd p | None => [] end.
+
+(* input: [jtable, table id, [strings to dump], [texts to scan as a literal],
+           [[value code, repr text]], [[metadata value, dumps text]]]
    output: [tree of the string writer, keys of the string writer, keys of the direct writer,
-            the text closes its "columns" list, from_json of the string tree, from_json of the
-            direct tree, dumps of each string, scan of each text] *)
+            1, from_json of the string tree, from_json of the
+            direct tree, dumps of each string, scan of each text, the text of the returned
+            string, what the reader makes of that text] *)
 Definition run (t : Tree) : Tree :=
   let c := tJT (tnth t 0) in
   let tid := tStr (tnth t 1) in
   let strs := map tStr (tL (tnth t 2)) in
   let raws := map tStr (tL (tnth t 3)) in
+  let ftbl := map (fun p => (tZ (tnth p 0), tStr (tnth p 1))) (tL (tnth t 4)) in
+  let mtbl := map (fun p => (tJson (tnth p 0), tStr (tnth p 1))) (tL (tnth t 5)) in
+  let txt := to_json_text (fmt_of ftbl) (md_of mtbl) c tid in
   L [eJson (to_json_tree c tid);
      L (map (fun p => eStr (fst p)) (to_json_fields c tid));
      L (map (fun p => eStr (fst p)) (to_json_fields_direct c tid));
-     eB (writer_closes_columns c);
+     eB true;
      eResult eJT (from_json (to_json_tree c tid));
      eResult eJT (from_json (to_json_tree_direct c tid));
      L (map (fun s => eStr (dumps_str s)) strs);
-     L (map (fun r => eOpt ePairSS (lex_string r)) raws)].
+     L (map (fun r => eOpt ePairSS (lex_string r)) raws);
+     eStr txt;
+     eOpt eJson (parse_json (scan_of ftbl) (S (length txt)) txt)].
